@@ -158,12 +158,20 @@ func runHistory(p core.Params) (line, impl string) {
 	}
 	ctx, cancel := context.WithTimeout(context.Background(), time.Minute)
 	defer cancel()
-	dev, err := e.NewDevice(ctx, protocol.X509KeyEnc)
+	keyEnc := protocol.X509KeyEnc
+	if p["enc"] == "x5chain" { // manufacturer and owner keys travel as certificate chains [leaf, CA]
+		keyEnc = protocol.X5ChainKeyEnc
+	}
+	dev, err := e.NewDevice(ctx, keyEnc)
 	if err != nil {
 		lastHist.Err = err.Error()
 		return "srv.history ()", "err-di " + err.Error()
 	}
-	other, _ := e.NewDevice(ctx, protocol.X509KeyEnc)
+	other, _ := e.NewDevice(ctx, keyEnc)
+	if p["chunked"] == "1" { // requests without Content-Length to a handler whose size limit is switched off
+		e.RT.Chunked, e.Handler.MaxContentLength = true, -1
+		defer func() { e.RT.Chunked, e.Handler.MaxContentLength = false, 0 }()
+	}
 	cipher, _ := strconv.Atoi(p["cipher"])
 	reuse := p["reuse"] == "1"
 	e.Reuse = reuse
@@ -696,6 +704,10 @@ func RunC08(c *core.Ctx) {
 		}
 		for i := 0; i < n; i++ {
 			doHist(c, cf, genRandom(c, 4+c.Rng.Intn(14)), "random-interleaving", nil)
+		}
+		if !c.Quick() || ci == 0 {
+			hangupProbe(c, cf.spec)
+			lockedProbe(c, cf.spec)
 		}
 	}
 }
